@@ -68,9 +68,14 @@ Fixpoint has_string (v : val) : bool :=
   | _ => false
   end.
 
+(* a position that can take a text for a string: str, Any, a Literal with a string member (Literal["null", "1"] takes the
+   text 1 for its member "1", the integer 1 is no member), an Enum (members are named by strings: the text 1 names the
+   member "1", the integer 1 names nothing) *)
 Fixpoint ty_has_str_any (t : ty) : bool :=
   match t with
   | TStr | TAny => true
+  | TLit ls => existsb (fun l => match l with LStr _ => true | _ => false end) ls
+  | TEnum _ _ => true
   | TUnion ts | TTuple ts => existsb ty_has_str_any ts
   | TList t1 | TDict _ t1 | TTupleVar t1 | TSet t1 => ty_has_str_any t1
   | _ => false
